@@ -166,12 +166,17 @@ def run(pid: str, tier: str, seed: int, selftest=False, replay=None) -> int:
     n = 350 if tier == "quick" else 6000
     cases = []
     made = 0
+    prev_text = None
     while made < n:
         g = gen_schedule(rng)
         if g is None:
             continue
         made += 1
         text, desc = g
+        own = text
+        if made % 3 == 0 and not desc["explicit"]:
+            text = repo.add_companion(text, prev_text)       # one pass run over two scheduled operations; @f is judged
+        prev_text = own
         try:
             src = repo.parse(text)
             src.verify()
@@ -187,7 +192,8 @@ def run(pid: str, tier: str, seed: int, selftest=False, replay=None) -> int:
                 rep.violation(name, f"set-memory-layout{{tiled={tiled}}} raised {type(e).__name__}: {str(e)[:200]}",
                               {"source": text, "exception": traceback.format_exc(limit=6)})
                 continue
-            casts = [op for op in m.walk() if isinstance(op, LayoutCast)]
+            from export_ir import funcs_of
+            casts = [op for op in funcs_of(m)["f"].walk() if isinstance(op, LayoutCast)]
             if desc["explicit"]:
                 cases.append({"kind": "eq", "clause": "ExplicitLayoutUntouched", "name": name, "x": str(src), "y": str(m), "text": text})
                 continue
